@@ -107,6 +107,9 @@ where
             _ => UNKNOWN_CHAR,
         };
         ptr += 1;
+        while ptr < bytes.len() && !input.is_char_boundary(ptr) {
+            ptr += 1;
+        }
         w.write_char(new_char)?;
         start = ptr;
     }
